@@ -431,3 +431,398 @@ Proof.
   rewrite listing_exact. unfold filtered_listing. rewrite filter_In. rewrite negb_true_iff. tauto.
 Qed.
 End WithMatch.
+
+(* ------------------------------------------------------------------ single edits change the tree *)
+
+Lemma app_insert_neq {A : Type} (l1 l2 : list A) x : l1 ++ l2 <> l1 ++ x :: l2.
+Proof. intros E. apply (f_equal (@length A)) in E. rewrite !app_length in E. cbn [length] in E. lia. Qed.
+
+Lemma names_app {A : Type} (l1 l2 : list (bytes * A)) : names (l1 ++ l2) = names l1 ++ names l2.
+Proof. unfold names. apply map_app. Qed.
+
+Lemma edit1_changes v v' : edit1 v v' -> v <> v'.
+Proof.
+  induction 1 as [i j cs Hij | i l1 l2 n c Hn | i l1 l2 n c Hn | i l1 l2 m1 m2 n n' c Hm Hn' | i l1 l2 n c c' Hc | i l1 l2 n c c' He IH];
+    intros E; injection E as E.
+  - contradiction.
+  - exact (app_insert_neq _ _ _ E).
+  - symmetry in E. exact (app_insert_neq _ _ _ E).
+  - apply Hn'. rewrite E. rewrite names_app. apply in_or_app. right. cbn [names map fst]. left. reflexivity.
+  - apply app_inv_head in E. injection E as E. contradiction.
+  - apply app_inv_head in E. injection E as E. contradiction.
+Qed.
+
+Section Detect.
+Variable matches : bytes -> bytes -> bool.
+
+(* any single edit, at any depth, changes the tokens of the tree signature *)
+Theorem tree_sig_detects p v v' : wf_v v -> wf_v v' -> sorted_v v -> sorted_v v' ->
+  edit1 v v' -> tree_tokens matches [] p v <> tree_tokens matches [] p v'.
+Proof.
+  intros W W' S S' Ed E. apply (tree_tokens_injective_sorted matches p v v' W W' S S') in E.
+  exact (edit1_changes v v' Ed E).
+Qed.
+End Detect.
+
+(* ------------------------------------------------------------------ the structure signature *)
+
+Lemma app_eq_length {A : Type} (a b c d : list A) : length a = length b -> a ++ c = b ++ d -> a = b /\ c = d.
+Proof.
+  revert b. induction a as [|x a IH]; intros [|y b] Hl E; try discriminate; [auto|].
+  cbn [app] in E. injection E as Ex E. cbn [length] in Hl. destruct (IH b) as [H1 H2]; [lia | exact E |]. subst. auto.
+Qed.
+
+Lemma flat_map_const_inj {A : Type} (k : nat) (f g : A -> list tok) l1 l2 :
+  length l1 = length l2 ->
+  (forall a, length (f a) = k) -> (forall a, length (g a) = k) ->
+  flat_map f l1 = flat_map g l2 -> Forall2 (fun a b => f a = g b) l1 l2.
+Proof.
+  revert l2. induction l1 as [|a l1 IH]; intros [|b l2] Hlen Hf Hg E; try discriminate; [constructor|].
+  cbn [flat_map] in E. cbn [length] in Hlen.
+  apply app_eq_length in E; [| rewrite Hf, Hg; reflexivity].
+  destruct E as [Hab Hrest]. constructor; [exact Hab | apply IH; auto].
+Qed.
+
+Lemma flat_map_const_length {A : Type} (k : nat) (f : A -> list tok) l :
+  (forall a, length (f a) = k) -> length (flat_map f l) = (k * length l)%nat.
+Proof.
+  intros Hf. induction l as [|a l IH]; cbn [flat_map length]; [lia|].
+  rewrite app_length, Hf, IH. lia.
+Qed.
+
+Definition ssub_tok (mk : N -> N) (filt : bool) (p n : bytes) (c : stree) : tok :=
+  match c with
+  | SMissing => TNum nil_const
+  | SNode ni _ _ => if isdir ni then TSub VDirectoryTreeStructureSignature (struct_toks_gen mk filt (path_append p n) c)
+                    else TNum nil_const
+  end.
+
+Definition skind_tok (mk : N -> N) (c : stree) : tok :=
+  match c with SMissing => TBytes missing_input_enc | SNode ni _ _ => TNum (mk (fi_mode ni)) end.
+
+Definition schild_toks (mk : N -> N) (filt : bool) (p : bytes) (nc : bytes * stree) : list tok :=
+  [TStr (fst nc); skind_tok mk (snd nc); ssub_tok mk filt p (fst nc) (snd nc)].
+
+Lemma struct_toks_missing mk filt p : struct_toks_gen mk filt p SMissing = [TStr p; TBytes missing_input_enc].
+Proof. reflexivity. Qed.
+
+Lemma struct_toks_node mk filt p ni si cs :
+  struct_toks_gen mk filt p (SNode ni si cs) =
+  TStr p :: struct_dir_tok mk filt (SNode ni si cs) ::
+  (if filt && negb (isdir si) then [] else flat_map (schild_toks mk filt p) cs).
+Proof.
+  cbn [struct_toks_gen]. do 2 f_equal. destruct (filt && negb (isdir si)); [reflexivity|].
+  apply flat_map_ext. intros [n c]. unfold schild_toks, skind_tok, ssub_tok. cbn [fst snd]. destruct c; reflexivity.
+Qed.
+
+Lemma triple_toks_inj (a a' : bytes) (x x' y y' : tok) : [TStr a; x; y] = [TStr a'; x'; y'] -> a = a' /\ x = x' /\ y = y'.
+Proof. intros H. injection H as Ha Hx Hy. auto. Qed.
+
+Lemma cons2_inj (a a' x x' : tok) (l l' : list tok) : a :: x :: l = a' :: x' :: l' -> x = x' /\ l = l'.
+Proof. intros H. injection H as _ Hx Hl. auto. Qed.
+
+Lemma tnum_inj a b : TNum a = TNum b -> a = b.
+Proof. intros H. injection H as H. exact H. Qed.
+
+Section StructGen.
+Variable mk : N -> N.
+(* what is kept of a mode decides "is a directory" (bit 14) *)
+Hypothesis mk_dir : forall a b, mk a = mk b -> N.testbit a 14 = N.testbit b 14.
+
+Lemma shape_root_kind s1 s2 : shape_gen mk (eff s1) = shape_gen mk (eff s2) -> skind_tok mk s1 = skind_tok mk s2.
+Proof.
+  destruct s1, s2; cbn [eff shape_gen skind_tok]; intros E; try discriminate; [reflexivity|].
+  injection E as E _. rewrite E. reflexivity.
+Qed.
+
+Lemma names_shape_children (cs : list (bytes * vtree)) :
+  names (map (fun nc : bytes * vtree => (fst nc, shape_gen mk (snd nc))) cs) = names cs.
+Proof. apply names_map_snd. Qed.
+
+(* equal shapes -> equal structure tokens *)
+Lemma struct_toks_of_shape s1 : forall s2 p, shape_gen mk (eff s1) = shape_gen mk (eff s2) ->
+  struct_toks_gen mk false p s1 = struct_toks_gen mk false p s2.
+Proof.
+  induction s1 as [|ni1 si1 cs1 IH] using stree_ind'; intros [|ni2 si2 cs2] p E; cbn [eff shape_gen] in E; try discriminate; [reflexivity|].
+  injection E as Em Ec.
+  rewrite !struct_toks_node. cbn [andb struct_dir_tok]. rewrite Em. do 2 f_equal.
+  rewrite !map_map in Ec. cbn [fst snd] in Ec.
+  revert cs2 Ec. induction cs1 as [|[n1 c1] cs1 IHl]; intros [|[n2 c2] cs2] Ec; cbn [map] in Ec; try discriminate; [reflexivity|].
+  cbn [fst snd] in Ec. injection Ec as En Ece Ecs. subst n2.
+  inversion IH as [|? ? IHc IHcs]; subst. cbn [snd] in IHc.
+  cbn [flat_map]. f_equal; [| apply IHl; assumption].
+  unfold schild_toks. cbn [fst snd]. rewrite (shape_root_kind _ _ Ece). do 3 f_equal.
+  unfold ssub_tok.
+  destruct c1 as [|a1 b1 d1], c2 as [|a2 b2 d2]; cbn [eff shape_gen] in Ece; try discriminate; [reflexivity|].
+  assert (Hd : isdir a1 = isdir a2) by (unfold isdir; apply mk_dir; injection Ece as Ea _; exact Ea).
+  rewrite <- Hd. destruct (isdir a1); [|reflexivity].
+  apply f_equal. apply IHc. cbn [eff shape_gen]. exact Ece.
+Qed.
+
+(* equal structure tokens -> equal shapes, when only directories have entries *)
+Lemma struct_toks_inj s1 : forall s2 p, wf_s s1 -> wf_s s2 ->
+  struct_toks_gen mk false p s1 = struct_toks_gen mk false p s2 -> shape_gen mk (eff s1) = shape_gen mk (eff s2).
+Proof.
+  induction s1 as [|ni1 si1 cs1 IH] using stree_ind'; intros [|ni2 si2 cs2] p W1 W2 E.
+  - reflexivity.
+  - exfalso. rewrite struct_toks_missing, struct_toks_node in E. apply cons2_inj in E. destruct E as [E _].
+    cbn [struct_dir_tok] in E. discriminate E.
+  - exfalso. rewrite struct_toks_missing, struct_toks_node in E. apply cons2_inj in E. destruct E as [E _].
+    cbn [struct_dir_tok] in E. discriminate E.
+  - rewrite !struct_toks_node in E. cbn [andb struct_dir_tok] in E. apply cons2_inj in E. destruct E as [Em Ec].
+    apply tnum_inj in Em.
+    unfold wf_s in W1, W2. cbn [eff] in W1, W2.
+    inversion W1 as [|? ? _ _ _ _ Wc1]; subst. inversion W2 as [|? ? _ _ _ _ Wc2]; subst.
+    apply wf_s_children in Wc1. apply wf_s_children in Wc2.
+    cbn [eff shape_gen]. rewrite Em. f_equal. rewrite !map_map. cbn [fst snd].
+    assert (Hlen : length cs1 = length cs2).
+    { apply (f_equal (@length tok)) in Ec.
+      rewrite (flat_map_const_length 3), (flat_map_const_length 3) in Ec by reflexivity. lia. }
+    apply (flat_map_const_inj 3) in Ec; [| exact Hlen | reflexivity | reflexivity].
+    clear Hlen W1 W2 Em.
+    revert cs2 Ec Wc2. induction cs1 as [|[n1 c1] cs1 IHl]; intros [|[n2 c2] cs2] Ec Wc2; inversion Ec as [|? ? ? ? Eh Et]; subst; [reflexivity|].
+    inversion IH as [|? ? IHc IHcs]; subst.
+    inversion Wc1 as [|? ? Wc1h Wc1t]; subst. inversion Wc2 as [|? ? Wc2h Wc2t]; subst.
+    cbn [snd] in IHc, Wc1h, Wc2h.
+    unfold schild_toks in Eh. cbn [fst snd] in Eh. apply triple_toks_inj in Eh. destruct Eh as [En [Ek Es]]. subst n2.
+    cbn [map fst snd]. f_equal; [| apply IHl; assumption].
+    f_equal.
+    destruct c1 as [|a1 b1 d1], c2 as [|a2 b2 d2]; cbn [skind_tok] in Ek; try discriminate Ek; [reflexivity|].
+    apply tnum_inj in Ek.
+    assert (Hd : isdir a1 = isdir a2) by (unfold isdir; apply mk_dir; exact Ek).
+    unfold ssub_tok in Es. rewrite <- Hd in Es.
+    destruct (isdir a1) eqn:Hd1.
+    + apply tsub_inj in Es. apply IHc in Es; assumption.
+    + unfold wf_s in Wc1h, Wc2h. cbn [eff] in Wc1h, Wc2h.
+      inversion Wc1h as [|? ? _ Wdd1 _ _ _]; subst. inversion Wc2h as [|? ? _ Wdd2 _ _ _]; subst.
+      cbn [eff shape_gen]. rewrite Ek. f_equal.
+      rewrite Wdd1 by exact Hd1. rewrite Wdd2 by (rewrite <- Hd; reflexivity). reflexivity.
+Qed.
+End StructGen.
+
+Lemma type_bits_dir a b : type_bits a = type_bits b -> N.testbit a 14 = N.testbit b 14.
+Proof.
+  unfold type_bits, s_ifmt. intros E.
+  assert (Ha : N.testbit (N.land a 61440) 14 = N.testbit a 14) by (rewrite N.land_spec; cbn; apply andb_true_r).
+  assert (Hb : N.testbit (N.land b 61440) 14 = N.testbit b 14) by (rewrite N.land_spec; cbn; apply andb_true_r).
+  rewrite <- Ha, <- Hb, E. reflexivity.
+Qed.
+
+Lemma shape_gen_sort_by mk (cs : list (bytes * vtree)) :
+  map (fun nc : bytes * vtree => (fst nc, shape_gen mk (snd nc))) (sort_by cs) =
+  sort_by (map (fun nc : bytes * vtree => (fst nc, shape_gen mk (snd nc))) cs).
+Proof. apply sort_by_map. Qed.
+
+Section StructTrees.
+Variable matches : bytes -> bytes -> bool.
+
+(* ---- the structure signature is injective on names and file types *)
+Theorem struct_tokens_injective p v1 v2 : wf_v v1 -> wf_v v2 ->
+  (struct_tokens matches [] p v1 = struct_tokens matches [] p v2 <-> shape_of (canon v1) = shape_of (canon v2)).
+Proof.
+  intros W1 W2. unfold struct_tokens, struct_toks, shape_of. cbn [nonempty]. split.
+  - intros E. rewrite <- !eff_clean_build with (matches := matches).
+    apply (struct_toks_inj type_bits type_bits_dir _ _ p); [| | exact E].
+    + unfold wf_s. rewrite eff_clean_build. apply wf_v_canon. exact W1.
+    + unfold wf_s. rewrite eff_clean_build. apply wf_v_canon. exact W2.
+  - intros E. apply (struct_toks_of_shape type_bits type_bits_dir). rewrite !eff_clean_build. exact E.
+Qed.
+
+Corollary struct_tokens_injective_sorted p v1 v2 : wf_v v1 -> wf_v v2 -> sorted_v v1 -> sorted_v v2 ->
+  (struct_tokens matches [] p v1 = struct_tokens matches [] p v2 <-> shape_of v1 = shape_of v2).
+Proof.
+  intros W1 W2 S1 S2. rewrite (struct_tokens_injective p v1 v2 W1 W2), (canon_sorted v1 S1), (canon_sorted v2 S2). tauto.
+Qed.
+
+Lemma same_structure_shape v1 : forall v2, same_structure v1 v2 -> shape_of v1 = shape_of v2.
+Proof.
+  induction v1 as [|i cs IH] using vtree_ind'; intros v2 Hs; inversion Hs as [|? j ? ds Ht Hc]; subst; [reflexivity|].
+  unfold shape_of. cbn [shape_gen]. rewrite Ht. f_equal.
+  clear Hs Ht. revert ds Hc. induction cs as [|[n c] cs IHl]; intros ds Hc; inversion Hc as [|? [m d] ? ds' [Hn Hcd] Ht]; subst; [reflexivity|].
+  inversion IH as [|? ? IHc IHcs]; subst. cbn [fst snd] in *. subst m.
+  cbn [map fst snd]. f_equal; [| apply IHl; assumption].
+  f_equal. apply IHc. exact Hcd.
+Qed.
+
+(* changes of size, times, inode, device or permission bits alone are invisible to the structure signature *)
+Theorem structure_ignores_content p v1 v2 : sorted_v v1 -> sorted_v v2 -> same_structure v1 v2 ->
+  struct_tokens matches [] p v1 = struct_tokens matches [] p v2.
+Proof.
+  intros S1 S2 Hs. unfold struct_tokens, struct_toks. cbn [nonempty].
+  apply (struct_toks_of_shape type_bits type_bits_dir). rewrite !eff_clean_build, (canon_sorted v1 S1), (canon_sorted v2 S2).
+  apply same_structure_shape. exact Hs.
+Qed.
+End StructTrees.
+
+Lemma map_shape_app mk (l1 l2 : list (bytes * vtree)) :
+  map (fun nc : bytes * vtree => (fst nc, shape_gen mk (snd nc))) (l1 ++ l2) =
+  map (fun nc : bytes * vtree => (fst nc, shape_gen mk (snd nc))) l1 ++
+  map (fun nc : bytes * vtree => (fst nc, shape_gen mk (snd nc))) l2.
+Proof. apply map_app. Qed.
+
+Lemma shape_missing_inv v : shape_of v = ShMissing -> v = VMissing.
+Proof. destruct v; [reflexivity | discriminate]. Qed.
+
+Lemma sedit1_changes v v' : sedit1 v v' -> shape_of v <> shape_of v'.
+Proof.
+  induction 1 as [i j cs Hij | i j l1 l2 n c Hn | i j l1 l2 n c Hn | i j l1 l2 m1 m2 n n' c Hm Hn' | i j l1 l2 n c Hc | i j l1 l2 n c Hc | i j l1 l2 n c c' He IH];
+    unfold shape_of in *; cbn [shape_gen]; intros E.
+  - injection E as Et. contradiction.
+  - injection E as _ E. rewrite !map_shape_app in E. cbn [map] in E. exact (app_insert_neq _ _ _ E).
+  - injection E as _ E. rewrite !map_shape_app in E. cbn [map] in E. symmetry in E. exact (app_insert_neq _ _ _ E).
+  - injection E as _ E. apply Hn'. apply (f_equal names) in E. rewrite !names_map_snd in E. rewrite E.
+    rewrite names_app. apply in_or_app. right. cbn [names map fst]. left. reflexivity.
+  - injection E as _ E. rewrite !map_shape_app in E. cbn [map fst snd] in E. apply app_inv_head in E. injection E as E.
+    apply Hc. apply shape_missing_inv. unfold shape_of. symmetry. exact E.
+  - injection E as _ E. rewrite !map_shape_app in E. cbn [map fst snd] in E. apply app_inv_head in E. injection E as E.
+    apply Hc. apply shape_missing_inv. unfold shape_of. exact E.
+  - injection E as _ E. rewrite !map_shape_app in E. cbn [map fst snd] in E. apply app_inv_head in E. injection E as E. contradiction.
+Qed.
+
+Section StructDetect.
+Variable matches : bytes -> bytes -> bool.
+
+(* an entry added, removed, renamed or retyped, at any depth, changes the tokens of the structure signature *)
+Theorem structure_detects p v v' : wf_v v -> wf_v v' -> sorted_v v -> sorted_v v' ->
+  sedit1 v v' -> struct_tokens matches [] p v <> struct_tokens matches [] p v'.
+Proof.
+  intros W W' S S' Ed E. apply (struct_tokens_injective_sorted matches p v v' W W' S S') in E.
+  exact (sedit1_changes v v' Ed E).
+Qed.
+End StructDetect.
+
+(* ------------------------------------------------------------------ from tokens to the 64-bit signature *)
+
+Fixpoint tok_ind' (P : tok -> Prop) (HS : forall s, P (TStr s)) (HB : forall b, P (TBytes b)) (HN : forall n, P (TNum n))
+  (HSub : forall k l, Forall P l -> P (TSub k l)) (t : tok) : P t :=
+  match t with
+  | TStr s => HS s
+  | TBytes b => HB b
+  | TNum n => HN n
+  | TSub k l => HSub k l ((fix go (l : list tok) : Forall P l :=
+                             match l with [] => Forall_nil _ | t :: l' => Forall_cons t (tok_ind' P HS HB HN HSub t) (go l') end) l)
+  end.
+
+Lemma tok_ok_sub k l : tok_ok (TSub k l) <-> (k = VDirectoryTreeSignature \/ k = VDirectoryTreeStructureSignature) /\ Forall tok_ok l.
+Proof.
+  cbn [tok_ok]. assert (H : (fix all (l : list tok) : Prop := match l with [] => True | t :: l' => tok_ok t /\ all l' end) l <-> Forall tok_ok l).
+  { induction l as [|t l IH]; [split; [constructor | trivial]|].
+    split; [intros [H1 H2]; constructor; [exact H1 | apply IH; exact H2] | intros H; inversion H; subst; split; [assumption | apply IH; assumption]]. }
+  rewrite H. tauto.
+Qed.
+
+Lemma wf_sig_value k h : (k = VDirectoryTreeSignature \/ k = VDirectoryTreeStructureSignature) -> u64 h -> wf_value (mkBV k h [] []).
+Proof. intros [-> | ->] Hh; unfold wf_value; cbn; auto. Qed.
+
+Section HashProofs.
+Variable H : list ftok -> N.
+
+Lemma fbytes_inj a b : FBytes a = FBytes b -> a = b.
+Proof. intros E. injection E as E. exact E. Qed.
+
+Lemma flat_inj t : forall t' D, tok_ok t -> tok_ok t' ->
+  incl (hashed_tok H t) D -> incl (hashed_tok H t') D -> hash_good H D -> flat H t = flat H t' -> t = t'.
+Proof.
+  induction t as [s|b|n|k l IH] using tok_ind'; intros t' D Ok Ok' In1 In2 G E.
+  - destruct t'; cbn [flat] in E; try discriminate E. injection E as E. subst. reflexivity.
+  - destruct t' as [|b'| |k' l']; cbn [flat] in E; try discriminate E.
+    + apply fbytes_inj in E. subst. reflexivity.
+    + exfalso. apply fbytes_inj in E. cbn [tok_ok] in Ok. apply tok_ok_sub in Ok'. destruct Ok' as [Hk _].
+      assert (Hh : hd 0 b = vtag k') by (rewrite E; apply enc_value_first_byte).
+      destruct Ok as [O5 O6]. destruct Hk as [-> | ->]; cbn [vtag] in Hh; congruence.
+  - destruct t'; cbn [flat] in E; try discriminate E. injection E as E. subst. reflexivity.
+  - destruct t' as [|b'| |k' l']; cbn [flat] in E; try discriminate E.
+    + exfalso. apply fbytes_inj in E. cbn [tok_ok] in Ok'. apply tok_ok_sub in Ok. destruct Ok as [Hk _].
+      assert (Hh : hd 0 b' = vtag k) by (rewrite <- E; apply enc_value_first_byte).
+      destruct Ok' as [O5 O6]. destruct Hk as [-> | ->]; cbn [vtag] in Hh; congruence.
+    + apply fbytes_inj in E. apply tok_ok_sub in Ok. apply tok_ok_sub in Ok'. destruct Ok as [Hk Okl]. destruct Ok' as [Hk' Okl'].
+      cbn [hashed_tok] in In1, In2.
+      assert (M1 : In (map (flat H) l) D) by (apply In1; left; reflexivity).
+      assert (M2 : In (map (flat H) l') D) by (apply In2; left; reflexivity).
+      destruct G as [G64 Ginj].
+      apply enc_value_injective in E; [| apply wf_sig_value; [exact Hk | apply G64; exact M1] | apply wf_sig_value; [exact Hk' | apply G64; exact M2]].
+      injection E as Ek Eh. subst k'. f_equal.
+      apply Ginj in Eh; [| exact M1 | exact M2].
+      assert (Sub1 : incl (flat_map (hashed_tok H) l) D) by (intros x Hx; apply In1; right; exact Hx).
+      assert (Sub2 : incl (flat_map (hashed_tok H) l') D) by (intros x Hx; apply In2; right; exact Hx).
+      clear In1 In2 M1 M2 Hk Hk'.
+      revert l' Okl' Eh Sub2. induction l as [|t l IHl]; intros [|t' l'] Okl' Eh Sub2; cbn [map] in Eh; try discriminate Eh; [reflexivity|].
+      injection Eh as Et El.
+      inversion IH as [|? ? IHt IHrest]; subst. inversion Okl as [|? ? Ot Orest]; subst. inversion Okl' as [|? ? Ot' Orest']; subst.
+      cbn [flat_map] in Sub1, Sub2.
+      f_equal.
+      * apply (IHt t' D); auto.
+        -- intros x Hx. apply Sub1. apply in_or_app. left. exact Hx.
+        -- intros x Hx. apply Sub2. apply in_or_app. left. exact Hx.
+        -- split; assumption.
+      * apply IHl; auto.
+        -- intros x Hx. apply Sub1. apply in_or_app. right. exact Hx.
+        -- intros x Hx. apply Sub2. apply in_or_app. right. exact Hx.
+Qed.
+
+Lemma map_flat_inj l : forall l' D, Forall tok_ok l -> Forall tok_ok l' ->
+  incl (flat_map (hashed_tok H) l) D -> incl (flat_map (hashed_tok H) l') D -> hash_good H D ->
+  map (flat H) l = map (flat H) l' -> l = l'.
+Proof.
+  induction l as [|t l IH]; intros [|t' l'] D Ok Ok' S1 S2 G E; cbn [map] in E; try discriminate E; [reflexivity|].
+  injection E as Et El. inversion Ok; subst. inversion Ok'; subst. cbn [flat_map] in S1, S2. f_equal.
+  - apply (flat_inj t t' D); auto; intros x Hx; [apply S1 | apply S2]; apply in_or_app; left; exact Hx.
+  - apply (IH l' D); auto; intros x Hx; [apply S1 | apply S2]; apply in_or_app; right; exact Hx.
+Qed.
+
+(* under the ideal-hash premise on the argument lists that actually occur, equal signatures mean equal token trees *)
+Theorem sig_injective l1 l2 : Forall tok_ok l1 -> Forall tok_ok l2 ->
+  hash_good H (hashed H l1 ++ hashed H l2) -> sig H l1 = sig H l2 -> l1 = l2.
+Proof.
+  intros Ok1 Ok2 G E. unfold sig in E. unfold hashed in G.
+  assert (M1 : In (map (flat H) l1) ((map (flat H) l1 :: flat_map (hashed_tok H) l1) ++ (map (flat H) l2 :: flat_map (hashed_tok H) l2)))
+    by (apply in_or_app; left; left; reflexivity).
+  assert (M2 : In (map (flat H) l2) ((map (flat H) l1 :: flat_map (hashed_tok H) l1) ++ (map (flat H) l2 :: flat_map (hashed_tok H) l2)))
+    by (apply in_or_app; right; left; reflexivity).
+  destruct G as [G64 Ginj]. pose proof (Ginj _ _ M1 M2 E) as Em.
+  refine (map_flat_inj l1 l2 _ Ok1 Ok2 _ _ (conj G64 Ginj) Em).
+  - intros x Hx. apply in_or_app. left. right. exact Hx.
+  - intros x Hx. apply in_or_app. right. right. exact Hx.
+Qed.
+End HashProofs.
+
+(* the token lists of both tasks have the required form *)
+Lemma dir_value_enc_ok filt s : hd 0 (dir_value_enc filt s) <> 5 /\ hd 0 (dir_value_enc filt s) <> 6.
+Proof.
+  destruct s as [|ni si cs]; cbn [dir_value_enc]; [unfold missing_input_enc; rewrite enc_value_first_byte; cbn; split; discriminate|].
+  destruct filt; [destruct (isdir si)|]; unfold existing_input_enc; rewrite enc_value_first_byte; cbn; split; discriminate.
+Qed.
+
+Lemma node_value_enc_ok s : hd 0 (node_value_enc s) <> 5 /\ hd 0 (node_value_enc s) <> 6.
+Proof.
+  destruct s; cbn [node_value_enc]; unfold missing_input_enc, existing_input_enc; rewrite enc_value_first_byte; cbn; split; discriminate.
+Qed.
+
+Lemma tree_toks_ok filt s : forall p, Forall tok_ok (tree_toks filt p s).
+Proof.
+  induction s as [|ni si cs IH] using stree_ind'; intros p.
+  - rewrite tree_toks_missing. repeat constructor; unfold missing_input_enc; rewrite enc_value_first_byte; cbn; discriminate.
+  - rewrite tree_toks_node. constructor; [exact I|]. constructor; [apply dir_value_enc_ok|].
+    destruct (filt && negb (isdir si)); [constructor|].
+    induction cs as [|[n c] cs IHl]; [constructor|]. inversion IH as [|? ? IHc IHcs]; subst. cbn [snd] in IHc.
+    cbn [flat_map]. apply Forall_app. split; [| apply IHl; exact IHcs].
+    unfold child_toks. cbn [fst snd]. constructor; [apply node_value_enc_ok|]. constructor; [|constructor].
+    unfold sub_tok. destruct c as [|a b d]; [exact I|]. destruct (isdir a); [|exact I].
+    apply tok_ok_sub. split; [left; reflexivity | apply IHc].
+Qed.
+
+Lemma struct_toks_ok mk filt s : forall p, Forall tok_ok (struct_toks_gen mk filt p s).
+Proof.
+  induction s as [|ni si cs IH] using stree_ind'; intros p.
+  - rewrite struct_toks_missing. repeat constructor; unfold missing_input_enc; rewrite enc_value_first_byte; cbn; discriminate.
+  - rewrite struct_toks_node. constructor; [exact I|]. constructor.
+    { cbn [struct_dir_tok]. destruct filt; [destruct (isdir si)|]; try exact I. apply (dir_value_enc_ok true (SNode ni si cs)). }
+    destruct (filt && negb (isdir si)); [constructor|].
+    induction cs as [|[n c] cs IHl]; [constructor|]. inversion IH as [|? ? IHc IHcs]; subst. cbn [snd] in IHc.
+    cbn [flat_map]. apply Forall_app. split; [| apply IHl; exact IHcs].
+    unfold schild_toks. cbn [fst snd]. constructor; [exact I|]. constructor.
+    { unfold skind_tok. destruct c; [|exact I]. unfold missing_input_enc. cbn [tok_ok]. rewrite enc_value_first_byte. cbn. split; discriminate. }
+    constructor; [|constructor].
+    unfold ssub_tok. destruct c as [|a b d]; [exact I|]. destruct (isdir a); [|exact I].
+    apply tok_ok_sub. split; [right; reflexivity | apply IHc].
+Qed.
